@@ -21,8 +21,8 @@ condition on the generated tables.
 import ast
 import os
 
-from harness.translate import TranslateError, parse_file
-from harness.gen._effects import Analyzer, lean_module, lean_list, lean_str
+from harness.translate import parse_file
+from harness.gen._effects import Analyzer, TranslateError, lean_module, lean_list, selftest
 
 SRCS = ['pyphysim/ia/iabase.py', 'pyphysim/ia/algorithms.py']
 BASE = 'IASolverBaseClass'
@@ -77,6 +77,7 @@ def analyse(repo):
 
 
 def gen(repo):
+    selftest()
     an, classes, abstract, rows = analyse(repo)
     extra = ('/-- classes of the chain that still have abstract members (no rows) -/\n'
              'def abstractClasses : List String := %s\n\n'
